@@ -23,7 +23,7 @@ Proof. eapply ex_regular; vm_compute; reflexivity. Qed.
 
 Definition res_ids (r : ares) : option (list N) := match r with AOk p => Some (map id p) | AErr _ => None end.
 
-(* the hypotheses of ancestors_fixed_spec / ancestors_spec_partial hold on a non-trivial store, and the answers are: *)
+(* the hypotheses of ancestors_spec hold on a non-trivial store, and the answers are: *)
 Example ex_ancestors :
   Valid ex_store /\ regular ex_store 7 /\
   res_ids (ancestors ex_store 7 1) = Some [7; 2; 1]%N /\         (* the path tip -> genesis *)
@@ -46,25 +46,26 @@ Example ex_common :
   common_ancestor ex_store [7; 99]%N = CErrNotFound.
 Proof. vm_compute. repeat split; reflexivity. Qed.
 
+(* the hypotheses of common_ancestor_spec are satisfiable on a fork (7 on the Longest branch, 4 on the Stale one) *)
+Example ex_common_hyps :
+  Valid ex_store /\ [7; 4]%N <> [] /\ (forall t, In t [7; 4]%N -> regular ex_store t) /\
+  exists hs, Forall2 (fun t r => by_hash ex_store t = Some r) [7; 4]%N hs /\ min_height hs max_int32 = 2.
+Proof.
+  split; [exact ex_valid|]. split; [discriminate|]. split.
+  - intros t [<-|[<-|[]]]; [exact ex_regular_7| exact ex_regular_4].
+  - eexists. split; [constructor; [vm_compute; reflexivity| constructor; [vm_compute; reflexivity| constructor]]|].
+    vm_compute. reflexivity.
+Qed.
+
 Example ex_tips : map id (tips ex_store) = [7; 4; 6]%N.
 Proof. vm_compute. reflexivity. Qed.
 
 Example ex_by_height : map id (by_height_range ex_store 1 (Some 2)) = [2; 5; 3; 7; 6; 4]%N.
 Proof. vm_compute. reflexivity. Qed.
 
-(* ---- refutation 1 (the code as it is): two DIFFERENT headers of equal height -> the empty list ---- *)
-Theorem ancestors_equal_height_refuted :
-  exists s a b, Valid s /\ regular s a /\ ancestors s a b = AOk [] /\ ~ ancestors_answer_ok s a b (ancestors s a b).
-Proof.
-  exists ex_store, 2%N, 3%N. split; [exact ex_valid|]. split; [exact ex_regular_2|].
-  assert (E: ancestors ex_store 2 3 = AOk []) by (vm_compute; reflexivity).
-  split; [exact E|]. rewrite E. cbv beta iota delta [ancestors_answer_ok]. intros [(H & _)|(_ & H)]; [discriminate|].
-  apply (path_nonempty _ _ _ _ H). reflexivity.
-Qed.
-
-(* the repaired variant answers the same query with the same-chain error *)
-Example ancestors_equal_height_fixed : ancestors_fixed ex_store 2 3 = AErr ENotSame.
-Proof. vm_compute. reflexivity. Qed.
+(* two DIFFERENT headers of equal height: the same-chain error (before the fix ed2f6a2: the empty list) *)
+Example ancestors_equal_height : ancestors ex_store 2 3 = AErr ENotSame /\ ancestors_before_fix ex_store 2 3 = AOk [].
+Proof. vm_compute. split; reflexivity. Qed.
 
 (* ---- store 2: an orphan whose parent arrives later.  A(2) on G; X(3) with parent 5 (not yet stored: orphan, height 1);
         Y(4) on X (orphan, height 2); then B(5) on A (height 2, Longest).  X keeps height 1 although its parent has height 2. ---- *)
@@ -86,20 +87,19 @@ Proof.
   pose proof (HR x p (reach_here _ _ _ Ex) Ep). lia.
 Qed.
 
-(* refutation 2: without height-consistency the statement fails even for the repaired code - the stored parent of an
+(* refutation 1: without height-consistency the statement fails - the stored parent of an
    orphan is refused as its ancestor *)
 Theorem ancestors_late_parent_refuted :
   exists s a b rb, Valid s /\ by_hash s b = Some rb /\ reach s a rb /\
-    ancestors s a b = AErr EHigher /\ ancestors_fixed s a b = AErr EHigher /\
-    ~ ancestors_answer_ok s a b (ancestors_fixed s a b).
+    ancestors s a b = AErr EHigher /\ ~ ancestors_answer_ok s a b (ancestors s a b).
 Proof.
   assert (Eb: exists rb, by_hash late_store 5 = Some rb) by (eexists; vm_compute; reflexivity).
   destruct Eb as [rb Eb].
   assert (Hr: reach late_store 3 rb).
   { apply (walk_reach late_store 2%nat). revert Eb. vm_compute. intros Eb. inversion Eb. right. left. reflexivity. }
   exists late_store, 3%N, 5%N, rb. split; [exact late_valid|]. split; [exact Eb|]. split; [exact Hr|].
-  assert (E: ancestors_fixed late_store 3 5 = AErr EHigher) by (vm_compute; reflexivity).
-  split; [vm_compute; reflexivity|]. split; [exact E|]. rewrite E. cbv beta iota delta [ancestors_answer_ok].
+  assert (E: ancestors late_store 3 5 = AErr EHigher) by (vm_compute; reflexivity).
+  split; [exact E|]. rewrite E. cbv beta iota delta [ancestors_answer_ok].
   intros (ra & rb' & _ & Eb' & Hn). apply Hn. congruence.
 Qed.
 
@@ -112,7 +112,7 @@ Example common_ancestor_none_fixed :
   common_ancestor_endpoint ex_store [2; 1]%N = CNil /\ cres_status (common_ancestor_endpoint ex_store [2; 1]%N) = 400.
 Proof. vm_compute. split; reflexivity. Qed.
 
-(* refutation 3: below a late-parent orphan the lock-step walk misses the real common ancestor:
+(* refutation 2: below a late-parent orphan the lock-step walk misses the real common ancestor:
    4 -> 3 -> 5 -> 2 and 5 -> 2: header 2 (height 1) is an ancestor of both 4 and 5 (both of height 2), the answer is 404 *)
 Theorem common_ancestor_late_parent_refuted :
   exists s l hs, Valid s /\ l <> [] /\ Forall2 (fun t r => by_hash s t = Some r) l hs /\
